@@ -337,9 +337,13 @@ impl<Sink: TokenSink> Tokenizer<Sink> {
     // NB: this doesn't set the current input character.
     fn eat(&self, input: &BufferQueue, pat: &str, eq: fn(&u8, &u8) -> bool) -> Option<bool> {
         if self.ignore_lf.get() {
-            self.ignore_lf.set(false);
-            if self.peek(input) == Some('\n') {
-                self.discard_char(input);
+            // Only resolve the pending CR once the next character is known:
+            // it may still arrive with the next chunk.
+            if let Some(c) = self.peek(input) {
+                self.ignore_lf.set(false);
+                if c == '\n' {
+                    self.discard_char(input);
+                }
             }
         }
 
